@@ -99,6 +99,13 @@ def hot_block(r):
     if k < 0.26:
         # definition lists whose "term" is itself a colon line (no paragraph above that could serve as the term)
         return r.choice([": Wd Wd\n: Wd\n", "# Wd\n: Wd\n: Wd\n  Wd\n", "Wd\n\n\n: Wd Wd\n: Wd\n", "***\n:   Wd\n:   Wd\n\n    Wd\n", ": Wd\n: Wd\n: Wd\nWd\n"])
+    if k < 0.31:
+        # bare URLs (the url plugin) and what can stand directly behind or around one: a character reference, punctuation, brackets,
+        # link text, a raw anchor, a table cell
+        return r.choice(["Wd &Wd;https://Wd.Wd/Wd&Wd; Wd\n", "Wd (https://Wd.Wd/Wd_(Wd)) Wd\n", "Wd https://Wd.Wd/Wd?Wd=Wd&Wd=Wd. Wd\n",
+                         "[Wd https://Wd.Wd/Wd Wd](/Wd)\n", "<a href=Wd>https://Wd.Wd/Wd</a> http://Wd.Wd\n", "https://Wd.Wd/Wd&Wd;\n",
+                         "> - Wd https://Wd.Wd/Wd&Wd; Wd\n>   Wd\n", "| https://Wd.Wd/Wd&Wd; | Wd |\n|---|---|\n| Wd | http://Wd.Wd, |\n",
+                         "*Wd http://Wd.Wd/Wd* Wd, https://Wd.Wd/Wd&Wd;Wd;\n", "Wd https://Wd.Wd/Wd&amp;Wd&#38; Wd\n", "http://Wd.Wd/Wd)Wd) Wd\n"])
     if k < 0.38:
         return ref_def(r)
     if k < 0.55:
